@@ -2,6 +2,8 @@ SPECIFICATION TraceSpec
 CONSTANTS
   Wells <- TWells
   InputOrder <- TInput
+  FreeOrder <- TFree
+  FreeCells <- TFreeCells
   NK = 5
   MaxOps = 100
   MaxSteps = 100
